@@ -544,6 +544,9 @@ func (c *ctx) caseM(b *batch, l *Loaded, name string) error {
 					mut := gen.Mutate(c.r, in)
 					c.decodeCase(b, l, name, mut, zero, "mutated")
 				}
+				if rg, ok := w.Ragged(name, in); ok {
+					c.decodeCase(b, l, name, rg, zero, "ragged")
+				}
 				if len(in) > 0 && c.r.Intn(4) == 0 {
 					// every prefix of a valid encoding
 					step := 1
